@@ -4,7 +4,7 @@ one poll-loop iteration (PSI), grace-period atom and constants, start-up instant
 from .. import psi, arith, mir
 from ..psi import fmt, T
 from . import common
-from .poller_model import PollerModel, is_chrony_query
+from .poller_model import PollerModel, is_chrony_query, is_grace_query, mentions_query
 
 LEVEL = 'other'
 GRACE_NS = 5_000_000_000
@@ -12,10 +12,16 @@ GRACE_NS = 5_000_000_000
 
 def poller_impl(fb):
     """bodies of the shipped ChronyOperations implementor"""
+    from . import poller_model
+    poller_model.init_names(fb)
     out = {}
     for b in fb.bodies(common.DAEMON):
-        if (b.impl_trait or '').endswith('ChronyOperations') and b.name in ('get_tracking', 'is_within_grace_period'):
-            out[b.name] = b
+        if not b.impl_trait or b.impl_trait.startswith('std::') or b.defkind == 'Closure':
+            continue
+        if b.name in poller_model.QUERY_METHODS and common.reaches_call(fb, b, lambda n: n.startswith('chrony_candm::') and 'blocking_query' in n):
+            out['get_tracking'] = b
+        elif b.name in poller_model.GRACE_METHODS and common.reaches_call(fb, b, lambda n: n.endswith('Instant::elapsed')):
+            out['is_within_grace_period'] = b
     return out
 
 
@@ -109,7 +115,7 @@ def run(ctx, chk):
         if info['query'] is None:
             continue
         p = info['path']
-        gq = [n for n, name, ef in info['calls'] if name.endswith('::is_within_grace_period')]
+        gq = [n for n, name, ef in info['calls'] if is_grace_query(name)]
         if gq:
             qn0 = info['query'][0]
             chk.ob('C13.P6', 'grace:decided-after-the-query', all(n > qn0 for n in gq), p.where[2],
@@ -141,7 +147,7 @@ def run(ctx, chk):
                 # P5: both sides are the configured and the reported id
                 a, b2 = term[2]
                 sides = sorted([fmt(a), fmt(b2)])
-                good = any('phc_info' in s and s.endswith('refid') for s in sides) and any(s.endswith('ref_id') and 'get_tracking' in s for s in sides)
+                good = any('phc_info' in s and s.endswith('refid') for s in sides) and any(s_.endswith('ref_id') for s_ in sides) and (mentions_query(a) or mentions_query(b2))
                 chk.ob('C13.P5', 'phc:match-atom', good and term[1] in ('Eq', 'eq'), p.where[2],
                        'PHC match test is %s(%s, %s)' % (term[1], sides[0][-40:], sides[1][-40:]))
         # sysfs read outcome: any Err discriminant of an io call between query and send, or the Ok data path
@@ -160,7 +166,7 @@ def run(ctx, chk):
             tup = msg[3][0]
             payload_phc = tup[3][1]
             tr = tup[3][0]
-            chk.ob('C13.P4', 'data:tracking-is-the-reply', fmt(tr).endswith('Some).0') and 'get_tracking' in fmt(tr), p.where[2],
+            chk.ob('C13.P4', 'data:tracking-is-the-reply', fmt(tr).endswith('Some).0') and mentions_query(tr), p.where[2],
                    'data message carries %s' % fmt(tr)[-60:])
         key = (reply, use_phc if reply == 'tracking' else None, sysfs, info['grace'] if (reply == 'none' or sysfs == 'err') else None)
         rows.setdefault(key, set()).add((kind, 'zero' if (payload_phc is not None and psi.is_int_const(payload_phc) and payload_phc[1] == 0)
